@@ -53,3 +53,29 @@ Theorem C01_end_to_end :
   forall l ks l' rs, carries (segments toks s) l -> chain ks l l' -> rs_wf rs ->
   fold_case (strip (reconstruct rs l')) = fold_case (strip s).
 Proof. exact format_preserves_nonblank_total. Qed.
+
+From PasfmtVerif Require Import Model.MLString Proofs.MLStringProofs Proofs.WrapStepProofs.
+
+(* the re-indentation of a multi-line string is an admissible FWrap step (same non-blank bytes, starts with its quote) *)
+Theorem C01_mlstring_rewrite_is_admissible_step :
+  forall (rs : rsettings) (ind cont : N) (tok : token) (f f' : fmt) (c' : bytes),
+  is_ml_string (t_ty tok) = true ->
+  f_ignored f = false ->
+  f_ignored f' = f_ignored f ->
+  rs_blank rs ->
+  lines_complete (t_content tok) ->
+  (exists r : list N, t_content tok = 39 :: r) ->
+  rewrite_ml_token rs ind cont (t_content tok) = Some c' ->
+  PipelineProofs.wrap_tok (tok, f) (Rewriters.set_content tok c', f').
+Proof. exact rewrite_is_wrap_step. Qed.
+
+(* the whole string-formatting loop is one admissible step of the chain *)
+Theorem C01_mlstring_stage_is_FWrap :
+  forall (rs : rsettings) (l : list ftoken),
+  rs_blank rs ->
+  Forall
+    (fun p : token * fmt =>
+     is_ml_string (t_ty (fst p)) = true ->
+     lines_complete (t_content (fst p)) /\ (exists r : list N, t_content (fst p) = 39 :: r)) l ->
+  PipelineProofs.step Pipeline.FWrap l (map (ml_stage_tok rs) l).
+Proof. exact ml_stage_is_FWrap_step. Qed.
